@@ -56,7 +56,7 @@ class Null(Expression):
         return other is None or isinstance(other, Null)
 
     def __str__(self) -> str:
-        return ""
+        return "nil"
 
     def __hash__(self) -> int:
         return hash(self.__class__)
@@ -520,7 +520,11 @@ class Path(Expression):
 
     def __str__(self) -> str:
         it = iter(self.path)
-        buf = [str(next(it))]
+        root = next(it)
+        if isinstance(root, str) and not RE_PROPERTY.fullmatch(root):
+            buf = [f"[{root!r}]"]
+        else:
+            buf = [str(root)]
         for segment in it:
             if isinstance(segment, Path):
                 buf.append(f"[{segment}]")
@@ -828,7 +832,7 @@ class Filter:
 
     def __str__(self) -> str:
         if self.args:
-            return f"{self.name}: {''.join(str(arg) for arg in self.args)}"
+            return f"{self.name}: {', '.join(str(arg) for arg in self.args)}"
         return self.name
 
     def validate_filter_arguments(self, env: Environment) -> None:
